@@ -166,6 +166,9 @@ func (cs *State) VerifDrainStats() int {
 // VerifSetWAL installs a WAL (like SetWAL in tests).
 func (cs *State) VerifSetWAL(w WAL) { cs.wal = w }
 
+// VerifWAL returns the WAL the state currently writes to (the one OnStart opened, if any).
+func (cs *State) VerifWAL() WAL { return cs.wal }
+
 // VerifCatchupReplay runs the production catchupReplay for a height.
 func (cs *State) VerifCatchupReplay(height int64) error { return cs.catchupReplay(height) }
 
